@@ -63,6 +63,9 @@ func main() {
 			ic.Ghost = true
 			cases = append(cases, isish.Case{Kind: "iface", Raw: isish.MustJSON(ic)})
 		}
+		for i := 0; i < len(cases) && i < 200; i += 67 {
+			r.Sample(map[string]any{"kind": cases[i].Kind, "scenario": json.RawMessage(cases[i].Raw)})
+		}
 		outs := isish.RunBatch(cases, opts)
 		isish.Apply(r, cases, outs, crashFeatures)
 		r.Exhaustive(true)
